@@ -61,6 +61,11 @@ package strategy
 // alone if equal).
 //@ func IterUpdate$1
 //@   modifies heap, ghost_dirty, ghost_nput, ghost_ndel, ghost_mergeTouched
+//@   assumes ghost_flags_start_at_zero: ghost_loc_mergedStored == 0 && ghost_loc_cleaned == 0
+//@   after_call strategy.Iterator.Merge#1 ghost loc_mergedStored := 1
+//@   after_call strategy.Iterator.Clean#0 ghost loc_cleaned := 1
+//@   ensures equal_keys_always_merge_the_stored_value: r0 == nil && !itEOF && !isnil(itKey) && !dbEOF && !isnil(dbKey) ==> ghost_loc_mergedStored == 1
+//@   ensures stored_entries_without_input_are_always_cleaned: r0 == nil && (itEOF || isnil(itKey)) ==> ghost_loc_cleaned == 1
 //@   after_call strategy.Iterator.Clean#0 ghost loc_cArr := arrayOf(ret0)
 //@   after_call strategy.Iterator.Clean#0 ghost loc_cOff := offsetOf(ret0)
 //@   after_call strategy.Iterator.Clean#0 ghost loc_cLen := len(ret0)
@@ -107,6 +112,7 @@ package strategy
 //@   loop 0 invariant predecessor_was_delivered: hasPrevKey ==> ghost_itCount >= 1
 //@   loop 0 invariant no_key_before_the_first: !hasPrevKey ==> ghost_itCount == 0
 //@   at_call fmt.Errorf#1 assert rejects_only_with_predecessor: ghost_itCount >= 2
+//@   exit done_only_when_both_are_exhausted: r0 == nil ==> itEOF && dbEOF
 //@   after_call lmdb.(*Cursor).Get#0 ghost loc_dkArr := arrayOf(ret0)
 //@   after_call lmdb.(*Cursor).Get#0 ghost loc_dkOff := offsetOf(ret0)
 //@   after_call lmdb.(*Cursor).Get#0 ghost loc_dkLen := len(ret0)
